@@ -426,9 +426,16 @@ func addMessageAuthenticator(packet *radius.Packet, secret []byte) error {
 }
 
 // formatMAC formats a MAC address for RADIUS (uppercase with dashes)
+// The hardware address comes from the client (DHCP chaddr/hlen) and may have any length.
 func formatMAC(mac net.HardwareAddr) string {
-	return fmt.Sprintf("%02X-%02X-%02X-%02X-%02X-%02X",
-		mac[0], mac[1], mac[2], mac[3], mac[4], mac[5])
+	out := make([]byte, 0, 3*len(mac))
+	for i, b := range mac {
+		if i > 0 {
+			out = append(out, '-')
+		}
+		out = fmt.Appendf(out, "%02X", b)
+	}
+	return string(out)
 }
 
 // TerminateCause constants
